@@ -15,6 +15,24 @@ HARNESSES = [
          nochecks=["--conversion-check"], timeout=120,
          cases=[dict(id="type%d" % t, defines={"TYPE": t}, tier="quick")
                 for t in range(0, 15)]),
+    dict(name="ids_write", file="ids_write.c", label="proved", timeout=170,
+         loops=["sqfs_id_table_write"], flags=["--arrays-uf-always"],
+         cases=[dict(id="all", tier="quick")]),
+    dict(name="write_table", file="write_table.c", label="proved", timeout=170,
+         loops=["sqfs_write_table"], flags=["--arrays-uf-always"],
+         fp={"get_size": "stub_get_size", "write_at": "stub_write_at",
+             "destroy": "stub_mw_destroy"},
+         cases=[dict(id="all", tier="quick")]),
+    dict(name="frag_write", file="frag_write.c", label="proved", timeout=170,
+         loops=["sqfs_frag_table_write"], flags=["--arrays-uf-always"],
+         nochecks=["--conversion-check"],
+         cases=[dict(id="all", tier="quick")]),
+    dict(name="xattr_idtable", file="xattr_idtable.c",
+         label="bounded(sets in {1,2,511,512,513,1024,1025})", timeout=170,
+         include_dirs=["lib/sqfs/src/xattr"],
+         cases=[dict(id="n%d" % n, defines={"NSETS": n}, unwind=n + 2,
+                     tier="quick" if n in (1, 512, 513) else "thorough")
+                for n in (1, 2, 511, 512, 513, 1024, 1025)]),
     dict(name="dir_run", file="dir_run.c", label="proved", timeout=1200,
          nochecks=["--conversion-check"], weight=20,
          cases=[dict(id="n257", defines={"DR_N": 257}, unwind=258, tier="quick",
@@ -27,7 +45,7 @@ HARNESSES = [
          include_dirs=["lib/sqfs/src/comp"],
          cases=[dict(id=c, defines={"COMP_" + c: None}, tier="quick")
                 for c in ("gzip", "xz", "lz4", "zstd", "lzma")]),
-    dict(name="ids_index", file="ids_index.c", label="proved", timeout=600,
-         loops=["sqfs_id_table_id_to_index"], loop_rows_reachable=1,
+    dict(name="ids_index", file="ids_index.c", label="proved", timeout=170,
+         loops=["sqfs_id_table_id_to_index"], flags=["--arrays-uf-always"],
          cases=[dict(id="all", tier="quick")]),
 ]
